@@ -453,6 +453,37 @@ Qed.
 
 End Run.
 
+(* ================= the hypothesis is monotone in the retained map ================= *)
+
+(* a smaller retained map asks less: PAT-first with respect to pm1 implies PAT-first with respect to every subset *)
+Definition pm_sub (pm0 pm1 : pmap) : Prop := forall x, pm_mem pm0 x = true -> pm_mem pm1 x = true.
+
+Lemma agree_sub pm0 pm1 pm x : pm_sub pm0 pm1 -> agree pm1 pm x -> agree pm0 pm x.
+Proof. intros Hs Ha E. apply Ha, Hs, E. Qed.
+
+Lemma add_ok_sub pm0 pm1 pm p : pm_sub pm0 pm1 -> add_ok pm1 pm p -> add_ok pm0 pm p.
+Proof. intros Hs Ha Ht Hp. exact (agree_sub _ _ _ _ Hs (Ha Ht Hp)). Qed.
+
+Lemma loop_pk_sub pm0 pm1 P prs skip fuel : pm_sub pm0 pm1 -> forall s,
+  loop_pk pm1 P prs skip fuel s -> loop_pk pm0 P prs skip fuel s.
+Proof.
+  intros Hs. induction fuel as [|k IH]; intros s H; [exact I|].
+  cbn [loop_pk] in *. destruct (next_packet skip s) as [[p|c|] s1]; try exact I.
+  destruct H as [Ha H]. split; [exact (add_ok_sub _ _ _ _ Hs Ha)|].
+  destruct (pool_add (d_pm s1) (d_pool s1) p) as [pl1 ps]. destruct ps as [|p0 t]; [apply IH; exact H|].
+  destruct (parse_data P prs _ (p0 :: t)) as [ds|c|]; try exact I.
+  destruct (update_data _ ds) as [[dd|] s3]; [exact I|apply IH; exact H].
+Qed.
+
+Theorem calls_pk_sub pm0 pm1 P prs skip cs : pm_sub pm0 pm1 -> forall s,
+  calls_pk pm1 P prs skip cs s -> calls_pk pm0 P prs skip cs s.
+Proof.
+  intros Hs. induction cs as [|c r IH]; intros s H; [exact I|].
+  cbn [calls_pk] in *. destruct H as [Hc Hr]. split; [|apply IH; exact Hr].
+  destruct c; cbn [call_pk] in *; [exact I|]. destruct (d_buffer s); [|exact I].
+  exact (loop_pk_sub _ _ _ _ _ _ Hs _ Hc).
+Qed.
+
 (* ================= the retained program map ================= *)
 
 Lemma st_rel_with_pm r opt pm0 : st_rel pm0 (init_dstate r opt) (with_pm (init_dstate r opt) pm0).
@@ -668,4 +699,15 @@ Theorem rewind_any_history_packets P prs skip r opt ops cs : fresh r -> r_kind r
   fst (rewind s) = 0 /\ calls P prs skip cs (snd (rewind s)) = calls P prs skip cs (init_dstate r opt).
 Proof.
   intros Hf Hk s Hpk. apply rewind_any_history; [exact Hf|exact Hk|]. apply calls_of_pk; [apply pinv_init|exact Hpk].
+Qed.
+
+(* one hypothesis for all rewind points: the fresh run is PAT-first with respect to a set pm1 of PIDs; then Rewind is
+   clean at every point of every history at which the retained map is within pm1 *)
+Theorem rewind_any_history_within P prs skip r opt ops cs pm1 : fresh r -> r_kind r = Seekable ->
+  let s := run_ops P prs skip ops (init_dstate r opt) in
+  pm_sub (d_pm s) pm1 -> calls_pk pm1 P prs skip cs (init_dstate r opt) ->
+  fst (rewind s) = 0 /\ calls P prs skip cs (snd (rewind s)) = calls P prs skip cs (init_dstate r opt).
+Proof.
+  intros Hf Hk s Hsub Hpk. apply rewind_any_history_packets; [exact Hf|exact Hk|].
+  exact (calls_pk_sub _ _ _ _ _ _ Hsub _ Hpk).
 Qed.
